@@ -279,7 +279,16 @@ impl Gen {
         5 => {
           // a map header that claims an absurd number of entries
           dist.hit("env_properties_huge_len");
-          let mut c = vec![0xa1, self.rng.below(3) as u8, 0xa1, self.rng.below(3) as u8, 0xbb];
+          // every length-prefixed place of the properties schema: the traits map (top-level
+          // attributes and inside a gallery item), the title string, the txids byte string, and
+          // a random nesting
+          let mut c: Vec<u8> = match self.rng.below(6) {
+            0 | 1 => vec![0xa1, 0x01, 0xa1, 0x01, 0xbb],
+            2 => vec![0xa1, 0x00, 0x81, 0xa1, 0x01, 0xa1, 0x01, 0xbb],
+            3 => vec![0xa1, 0x01, 0xa1, 0x00, 0x7b],
+            4 => vec![0xa1, 0x02, 0x5b],
+            _ => vec![0xa1, self.rng.below(3) as u8, 0xa1, self.rng.below(3) as u8, 0xbb],
+          };
           c.extend([0xff; 8]);
           c
         }
